@@ -5,7 +5,8 @@ os.chdir("/verif")
 allp = ["C01","C02","C03","C04","C05","C06","C08","C09","C10","C11","C12","C13","C14","C15","C16","C17","C18","C19","C20"]
 extra = {"C01": ["C11","C02","C15"], "C02": ["C10", "C01"], "C09": ["C01"], "C10": ["C02","C05"], "C11": ["C03","C05"], "C12": ["C01"], "C13": ["C01","C05"], "C16": ["C03"], "C20": ["C16"], "C03": ["C04"], "C14": ["C04"], "C04": ["C14"], "C05": ["C03"], "C18": ["C03","C05"], "C19": ["C03"]}
 seeds = sorted(d for d in os.listdir("seeded") if os.path.isdir(f"seeded/{d}"))
-only = sys.argv[1:] 
+own_only = "--own" in sys.argv
+only = [a for a in sys.argv[1:] if not a.startswith("--")]
 matrix = json.load(open("seeded/matrix.json")) if os.path.exists("seeded/matrix.json") else {}
 for s in seeds:
     if only and s not in only: continue
@@ -16,12 +17,14 @@ for s in seeds:
         print(s, "patch does not apply"); continue
     row = {}
     try:
-        for c in [s[:3]] + extra.get(s[:3], []):
+        for c in [s[:3]] + ([] if own_only else extra.get(s[:3], [])):
             r = subprocess.run(f"VERIF_SCRATCH=1 timeout 1200 ./check {c}", shell=True, capture_output=True, text=True)
             v = [l for l in r.stdout.splitlines() if l.startswith("VIOLATION")]
             row[c] = dict(exit=r.returncode, violations=len(v), first=(v[0].split("obligation=")[-1][:140] if v else None))
     finally:
         subprocess.run("git -C /repo checkout -- .", shell=True)
+    if own_only and isinstance(matrix.get(s), dict):
+        merged = dict(matrix[s]); merged.update(row); row = merged
     matrix[s] = row
     print(s, {c: (x["exit"], x["violations"]) for c, x in row.items()}, flush=True)
     json.dump(matrix, open("seeded/matrix.json", "w"), indent=1)
